@@ -103,7 +103,7 @@ func (p *player) CheckAction(action string) bool {
 func (p *player) Pass() error {
 
 	if !p.CheckAction("pass") {
-		return nil
+		return ErrInvalidAction
 	}
 
 	p.state.Acted = true
